@@ -132,3 +132,66 @@ Proof.
   apply (compute_proposers_refines E st idx (get_seed E st ce DOMAIN_BEACON_PROPOSER) start); try assumption.
   constructor; try assumption. apply active_indices_in_registry.
 Qed.
+
+(* ---- a small concrete instance for the non-vacuity Example of Properties/C07.v ----
+   tiny_cfg (SLOTS_PER_EPOCH 8, TARGET_COMMITTEE_SIZE 4, MAX_COMMITTEES_PER_SLOT 4, 10 rounds), real SHA-256 (its output
+   passed through `mod 256`, which makes "returns bytes" provable and changes nothing on real digests),
+   72 validators of which every ninth has exited: 64 active, 2 committees per slot, 16 committees of 4. *)
+From V Require Base.Sha256 Beacon.Refine.Fixtures.
+Definition c07_hash (m : bytes) : bytes := map (fun b => b mod 256) (Sha256.sha256 m).
+Definition c07_env : Env :=
+  mkEnv Fixtures.tiny_cfg c07_hash (fun _ => repeat 0 32) (fun _ _ _ => true) (fun _ _ _ => true) (fun _ => repeat 0 48)
+        (fun _ _ _ => true).
+Definition c07_validators : list Validator :=
+  map (fun i => Fixtures.mkv 32000000000 false 0 0 (if Nat.eqb (Nat.modulo i 9) 4 then 3 else FAR_FUTURE_EPOCH) FAR_FUTURE_EPOCH)
+      (seq 0 72).
+Definition c07_seed : bytes := repeat 9 32.
+Definition c07_epoch : N := 5.
+Definition c07_active : list N := active_indices_impl (load_bounded_indices c07_validators) c07_epoch.
+
+Lemma c07_hash_bytes : forall m, ShuffleArith.bytes_ok (c07_hash m).
+Proof.
+  intros m. unfold ShuffleArith.bytes_ok, c07_hash. apply Forall_forall. intros b Hb.
+  apply in_map_iff in Hb. destruct Hb as (x & <- & _). apply N.mod_lt. discriminate.
+Qed.
+Lemma c07_params_ok : shuffling_params_ok c07_env (N.of_nat (length c07_active)).
+Proof.
+  constructor; try exact c07_hash_bytes; vm_compute; try reflexivity; discriminate.
+Qed.
+
+Definition list_N_eqb (a b : list N) : bool :=
+  Nat.eqb (length a) (length b) && forallb (fun p => fst p =? snd p) (combine a b).
+(* Impl table = table of the spec's compute_committee, committee by committee; the shuffle is not the identity *)
+Definition c07_example_check : bool :=
+  match new_shuffling_epoch c07_env (load_bounded_indices c07_validators) c07_seed c07_epoch with
+  | Ok she =>
+      let per_slot := committee_count_impl c07_env (N.of_nat (length c07_active)) in
+      (per_slot =? 2) && Nat.eqb (length (se_active she)) 64 && Nat.eqb (length (se_committees she)) 8 &&
+      negb (list_N_eqb (se_shuffling she) (se_active she)) &&
+      forallb (fun s => forallb (fun ci =>
+                 match committee_at she s ci, compute_committee c07_env c07_active c07_seed (s * per_slot + ci) (per_slot * 8) with
+                 | Some a, Some b => list_N_eqb a b && Nat.eqb (length a) 4
+                 | _, _ => false end) (seqN 0 2)) (seqN 0 8)
+  | _ => false
+  end.
+
+(* ---- sync committee sampling ---- *)
+From V Require Import Beacon.Spec.Epoch Beacon.Refine.SyncCommitteeRefine.
+Theorem C07T_sync_committee_indices_refines : forall E st idx seed,
+  proposer_params_ok E st idx -> 0 < N.of_nat (length idx) ->
+  forall fuel l, N.of_nat fuel < two64 ->
+  sync_loop E fuel st idx seed 0 (N.to_nat (SYNC_COMMITTEE_SIZE (cfg E))) = Some l ->
+  compute_sync_committee_indices_impl E fuel (validators st) idx seed = Ok l.
+Proof. exact sync_committee_indices_refines_partial. Qed.
+
+Theorem C07T_next_sync_committee_indices_refines : forall E st l,
+  let epoch := get_current_epoch E st + 1 in
+  let active := get_active_validator_indices st epoch in
+  SHUFFLE_ROUND_COUNT (cfg E) <= 255 -> (forall m, ShuffleArith.bytes_ok (Hash E m)) ->
+  N.of_nat (length active) <= ShuffleIndexProofs.spec_limit ->
+  MAX_EFFECTIVE_BALANCE (cfg E) * 255 < two64 ->
+  Forall (fun v => v_effective_balance v * 255 < two64) (validators st) ->
+  get_next_sync_committee_indices E st = Some l ->
+  compute_sync_committee_indices_impl E PROPOSER_FUEL (validators st) active
+    (get_seed E st epoch DOMAIN_SYNC_COMMITTEE) = Ok l.
+Proof. exact next_sync_committee_indices_refines_partial. Qed.
